@@ -84,7 +84,7 @@ def run(ctx):
     body.append('Definition dir_cases : list dir_case := ' + clist(
         '{| dc_comments := %s; dc_obs := %s |}' % (
             clist(c_comment(I, x) for x in c['comments']),
-            'ObsConflict' if c.get('conflict') else 'ObsMap ' + c_entries(I, c['entries']))
+            'ObsConflict' if c.get('conflict') else 'ObsMap ' + c_entries(I, c['entries'] or []))
         for c in dirs) + '.')
     igns = by['ign']
     body.append('Definition ign_cases : list ign_case := ' + clist(
